@@ -3,8 +3,10 @@ package chainclients
 import (
 	"bytes"
 	"encoding/hex"
+	"encoding/json"
 	"errors"
 	"fmt"
+	"os"
 	"runtime"
 	"strings"
 	"sync"
@@ -543,7 +545,12 @@ func TestC23(t *testing.T) {
 			rec.Class("case_with_ebb")
 		}
 		cs.ClientPlan, cs.ServerPlan = planDesc(pc), planDesc(ps)
+		t0 := time.Now()
 		runC23(rt, rec, cs, pc, ps)
+		if d := time.Since(t0); d > 5*time.Second && os.Getenv("C23_TIMING") != "" {
+			b, _ := json.Marshal(cs)
+			fmt.Printf("TIMING %.1f %s\n", d.Seconds(), b)
+		}
 	})
 }
 
@@ -617,6 +624,19 @@ func runC23(rt tb, rec *evi.Recorder, cs c23Case, pc, ps rawpeer.Plan) {
 			}
 		}
 		return false
+	}
+	// A call can return "protocol is shutting down" before the timeout error that
+	// caused it has travelled through the connection's error channel: on
+	// connections with the scaled-down timeout give it a moment to show up.
+	timedOutSoon := func() bool {
+		if !cs.hasSilent() {
+			return timedOut()
+		}
+		deadline := time.Now().Add(2 * time.Second * lf)
+		for !timedOut() && time.Now().Before(deadline) {
+			time.Sleep(2 * time.Millisecond)
+		}
+		return timedOut()
 	}
 	gone := func() bool { return len(s.connErrors()) > 0 || s.peer.ReadErr() != nil }
 	fail := func(key, what string, extra map[string]any) bool {
@@ -730,7 +750,7 @@ func runC23(rt tb, rec *evi.Recorder, cs c23Case, pc, ps rawpeer.Plan) {
 				return true
 			}
 			if res.err != nil {
-				if timedOut() {
+				if timedOutSoon() {
 					rec.Class("discarded_load_timeout")
 					return false
 				}
@@ -775,7 +795,7 @@ func runC23(rt tb, rec *evi.Recorder, cs c23Case, pc, ps rawpeer.Plan) {
 			evs := log.waitLen(wantLog, bound)
 			got := evs[min(wantLog-len(served)-1, len(evs)):]
 			if msg := cmpBatch(got, served, cs.Raw); msg != "" {
-				if len(evs) < wantLog && timedOut() {
+				if len(evs) < wantLog && timedOutSoon() {
 					rec.Class("discarded_load_timeout")
 					return false
 				}
@@ -817,7 +837,7 @@ func runC23(rt tb, rec *evi.Recorder, cs c23Case, pc, ps rawpeer.Plan) {
 		case shMatch:
 			want := served[0]
 			if res.err != nil {
-				if timedOut() {
+				if timedOutSoon() {
 					rec.Class("discarded_load_timeout")
 					return false
 				}
@@ -925,7 +945,7 @@ func runC23(rt tb, rec *evi.Recorder, cs c23Case, pc, ps rawpeer.Plan) {
 					dead = true
 					continue
 				}
-				if timedOut() {
+				if timedOutSoon() {
 					rec.Class("discarded_load_timeout")
 					return
 				}
